@@ -42,6 +42,7 @@ type Unit struct {
 	Modifies []string // raw items; nil = inferred; "nothing"
 	HasMod   bool
 	ModInferred bool // modifies = the inferred write set of the body, plus the listed items
+	MemoClass string    // memoize CLASS: value class of the build-cache keys made in this function (C13)
 	Pins     []EnumSpec // pins OBJ [except f,...]: every field of OBJ's struct type is assigned on every path
 	Visits   []EnumSpec // visits OBJ FUNC ARGIDX [except f,...]: every (pointer) field of OBJ is passed to FUNC
 	Loops    map[int]*LoopSpec
@@ -104,7 +105,7 @@ func NewContracts() *Contracts {
 	return &Contracts{Units: map[string]*Unit{}, Specs: map[string]*SpecFunc{}, Ghosts: map[string]*GhostVar{}, GhostFields: map[string]map[string]*GhostField{}}
 }
 
-var clauseKeywords = map[string]bool{"pins": true, "visits": true, "requires": true, "ensures": true, "modifies": true, "invariant": true,
+var clauseKeywords = map[string]bool{"memoize": true, "pins": true, "visits": true, "requires": true, "ensures": true, "modifies": true, "invariant": true,
 	"decreases": true, "loop": true, "func": true, "spec": true, "define": true, "axiom": true, "ghost": true,
 	"opts": true, "pure": true, "end": true, "trusted": true}
 
@@ -240,6 +241,11 @@ func (c *Contracts) ParseFile(path, pkgPath string) error {
 			} else {
 				cur.Ensures = append(cur.Ensures, cl)
 			}
+		case "memoize":
+			if cur == nil {
+				return fmt.Errorf("%s:%d: memoize outside func", path, r.line)
+			}
+			cur.MemoClass = strings.TrimSpace(r.text)
 		case "pins", "visits":
 			if cur == nil {
 				return fmt.Errorf("%s:%d: %s outside func", path, r.line, r.kw)
